@@ -289,6 +289,25 @@ class CompositeType(SerializableType):
         """
         return self._path_to_root_namespace
 
+    def _aggregate_fields(self) -> typing.Optional[BitLengthSet]:
+        """The bit length set as derived from the fields, if that is how the bit length set of this type is obtained."""
+        return None
+
+    def __getstate__(self) -> typing.Dict[str, typing.Any]:
+        # The bit length set aggregated from the fields repeats the expressions of the field types, one level of nesting
+        # per field; it is left out of the pickled state (which keeps it small and shallow) and is derived again on load.
+        state = dict(self.__dict__)
+        if type(self)._aggregate_fields is not CompositeType._aggregate_fields:
+            state.pop("_bls", None)
+        return state
+
+    def __setstate__(self, state: typing.Dict[str, typing.Any]) -> None:
+        self.__dict__.update(state)
+        if "_bls" not in state:
+            bls = self._aggregate_fields()
+            if bls is not None:
+                self._bls = bls
+
     @property
     def alignment_requirement(self) -> int:
         # This is more general than required by the Specification, but it is done this way in case if we decided
@@ -433,7 +452,10 @@ class UnionType(CompositeType):
             self._compute_tag_bit_length([x.data_type for x in self.fields]), PrimitiveType.CastMode.TRUNCATED
         )
 
-        self._bls = self.aggregate_bit_length_sets(
+        self._bls = self._aggregate_fields()
+
+    def _aggregate_fields(self) -> BitLengthSet:
+        return self.aggregate_bit_length_sets(
             [f.data_type for f in self.fields],
         ).pad_to_alignment(self.alignment_requirement)
 
@@ -524,7 +546,10 @@ class StructureType(CompositeType):
             has_parent_service=has_parent_service,
             doc=doc,
         )
-        self._bls = self.aggregate_bit_length_sets(
+        self._bls = self._aggregate_fields()
+
+    def _aggregate_fields(self) -> BitLengthSet:
+        return self.aggregate_bit_length_sets(
             [f.data_type for f in self.fields],
         ).pad_to_alignment(self.alignment_requirement)
 
